@@ -326,7 +326,7 @@ var (
 	rePos     = regexp.MustCompile(`:\d+:\d+`)
 	reFatal   = regexp.MustCompile(`^(?:PHP |ZY )?(Fatal error|Warning|Parse error|Error)?:? ?(.*)$`)
 	reInFile  = regexp.MustCompile(` in \S*$`)
-	reHexAddr = regexp.MustCompile(`0x[0-9a-f]+`)
+	reHexAddr = regexp.MustCompile(`\b0x[0-9a-f]{6,}\b`)
 	reLineNo  = regexp.MustCompile(`(?i)\b(line|行|col|列)\s*\d+`)
 )
 
@@ -456,6 +456,18 @@ func RunBatch(c *vh.Ctx, idx int, progs []*Prog, runTimeout time.Duration) *Batc
 		}
 		if m := reEmit.FindStringSubmatch(se); m != nil {
 			if drop(m[1], "emit", strings.TrimSpace(m[2]+" "+m[3])) {
+				progress = true
+			}
+		}
+		if !progress && strings.Contains(se, "panic:") {
+			// the command itself crashed: translate every remaining program alone to find out which
+			crashed := isolateCrash(root, progs, res)
+			for _, name := range crashed {
+				p := byName[name]
+				os.Remove(filepath.Join(entry, p.Name+".php"))
+				for rel := range p.Libs {
+					os.Remove(filepath.Join(lib, rel))
+				}
 				progress = true
 			}
 		}
@@ -604,6 +616,48 @@ func head(s string, n int) string {
 		return s[:n] + "…"
 	}
 	return s
+}
+
+// isolateCrash runs the compile command on each not-yet-refused program alone and records the
+// ones on which the command panics (Stage "crash").
+func isolateCrash(root string, progs []*Prog, res *BatchResult) []string {
+	var mu sync.Mutex
+	var wg sync.WaitGroup
+	var out []string
+	sem := make(chan struct{}, 8)
+	for i, p := range progs {
+		if _, r := res.Refused[p.Name]; r {
+			continue
+		}
+		wg.Add(1)
+		go func(i int, p *Prog) {
+			defer wg.Done()
+			sem <- struct{}{}
+			defer func() { <-sem }()
+			d := filepath.Join(root, fmt.Sprintf("iso%d", i))
+			os.MkdirAll(filepath.Join(d, "src", "entry"), 0o755)
+			os.WriteFile(filepath.Join(d, "src", "entry", p.Name+".php"), []byte(p.Src), 0o644)
+			for rel, s := range p.Libs {
+				f := filepath.Join(d, "src", "lib", rel)
+				os.MkdirAll(filepath.Dir(f), 0o755)
+				os.WriteFile(f, []byte(s), 0o644)
+			}
+			_, se, ex := runCmd(120*time.Second, d, nil, vh.Self(), "__child", "c16compile", filepath.Join(d, "src"), filepath.Join(d, "app"), filepath.Join(d, "src", "entry"))
+			if ex != 0 && strings.Contains(se, "panic:") {
+				msg := se[strings.Index(se, "panic:"):]
+				if j := strings.IndexByte(msg, '\n'); j > 0 {
+					msg = msg[:j]
+				}
+				mu.Lock()
+				res.Refused[p.Name] = Refusal{"crash", msg}
+				out = append(out, p.Name)
+				mu.Unlock()
+			}
+			os.RemoveAll(d)
+		}(i, p)
+	}
+	wg.Wait()
+	return out
 }
 
 func tail(s string, n int) string {
